@@ -1,6 +1,7 @@
 package plush
 
 import (
+	"errors"
 	"fmt"
 	"unsafe"
 
@@ -63,6 +64,17 @@ func (c *compiler) bind(id *ast.Identifier, v interface{}) func() {
 	}
 }
 
+// blockError is an error of a statement in the block of a helper. The block is
+// evaluated by an evaluator of its own (HelperContext.BlockWith); this is how
+// the statement that failed reaches the one that reports the line.
+type blockError struct {
+	stmt ast.Statement
+	err  error
+}
+
+func (e *blockError) Error() string { return e.err.Error() }
+func (e *blockError) Unwrap() error { return e.err }
+
 func (c *compiler) compile() (string, error) {
 	bb := &strings.Builder{}
 
@@ -93,6 +105,13 @@ func (c *compiler) compile() (string, error) {
 			if c.curStmt != nil {
 				s = c.curStmt
 			}
+
+			var in *blockError
+			if errors.As(err, &in) && in.stmt != nil {
+				// the failing statement stands in the block of a helper
+				s = in.stmt
+			}
+
 			return "", fmt.Errorf("line %d: %w", s.T().LineNumber, err)
 		}
 
